@@ -111,7 +111,10 @@ func (a *lbArch) category(fd *ast.FuncDecl, h *lfHandler) (string, []string) {
 		return "crossLane", nil
 	}
 	if h.laneParam != "" {
-		return "helper", nil
+		if lbMemoryFiles[filepath.Base(h.file)] {
+			return "helper", nil
+		}
+		return "operandRead", nil // a per-lane operand read wrapper of the ALU files (readF64)
 	}
 	float, mem, inner, lib := false, false, false, false
 	var callees []string
@@ -211,6 +214,8 @@ type lbCtx struct {
 	immut   map[string]bool // outer variables a lane body must not assign
 	leaf    *lbLeaf
 	named   []string // named results of a pure helper
+	mem     *lmCtx   // memory bodies (lanemem.go)
+	memPure bool     // translating flatAddrWithScalar: the lane's address operand is a parameter
 }
 
 func (c *lbCtx) fail(n ast.Node, f string, args ...any) string { return c.t.fail(n, f, args...) }
@@ -255,6 +260,18 @@ func (c *lbCtx) hooks() {
 			if f == "r.src2" {
 				c.leaf.usesS2 = true
 			}
+			return f, true
+		case name == "u.readF64" && len(e.Args) == 3 && types.ExprString(e.Args[0]) == "state":
+			// the operand read of the double-precision handlers: ReadOperand, except that an inline float constant
+			// yields its binary64 encoding — still "what the handler's read of this operand returns for lane i"
+			f, ok := lbOperandField[types.ExprString(e.Args[1])]
+			if id, isId := e.Args[2].(*ast.Ident); c.mode != "lane" || !ok || f == "r.dstOld" || !isId || id.Name != c.loopVar {
+				return c.fail(e, "readF64(%s, %s): not (inst.Src0|Src1|Src2, loop variable)", types.ExprString(e.Args[1]), types.ExprString(e.Args[2])), true
+			}
+			if f == "r.src2" {
+				c.leaf.usesS2 = true
+			}
+			c.leaf.inexact = true // the case line carries ReadOperand values
 			return f, true
 		case name == "state.VCC":
 			if c.mode != "lane" {
@@ -420,6 +437,9 @@ func (c *lbCtx) finish(env map[string]string, ind string) string {
 	if c.mode == "pure" {
 		return "UNSUPPORTED-fallthrough"
 	}
+	if c.mode == "mem" {
+		return c.memFinish(env, ind, false)
+	}
 	d, ok := env["$dst"]
 	if !ok {
 		d = "none"
@@ -445,6 +465,11 @@ func (c *lbCtx) stmts(list []ast.Stmt, env map[string]string, ind string) string
 		return c.finish(env, ind)
 	}
 	s, rest := list[0], list[1:]
+	if c.mode == "mem" && c.mem != nil {
+		if out, ok := c.mem.memStmt(s, rest, env, ind); ok {
+			return out
+		}
+	}
 	switch s := s.(type) {
 	case *ast.EmptyStmt:
 		return c.stmts(rest, env, ind)
@@ -468,7 +493,7 @@ func (c *lbCtx) stmts(list []ast.Stmt, env map[string]string, ind string) string
 		}
 		return ind + "(" + strings.Join(rs, ", ") + ")"
 	case *ast.BranchStmt:
-		if s.Tok == token.CONTINUE && s.Label == nil && c.mode == "lane" {
+		if s.Tok == token.CONTINUE && s.Label == nil && (c.mode == "lane" || c.mode == "mem") {
 			return c.finish(env, ind)
 		}
 		return t.fail(s, "%s", s.Tok)
@@ -597,10 +622,13 @@ func (c *lbCtx) stmts(list []ast.Stmt, env map[string]string, ind string) string
 		elseS := c.stmts(append(append([]ast.Stmt{}, elseList...), rest...), env, ind+"  ")
 		return fmt.Sprintf("%sif %s then\n%s\n%selse\n%s", ind, cond, thenS, ind, elseS)
 	case *ast.SwitchStmt:
-		if s.Init != nil || s.Tag == nil {
-			return t.fail(s, "switch without a tag / with init")
+		if s.Init != nil {
+			return t.fail(s, "switch with init")
 		}
-		tag := t.expr(s.Tag, env)
+		tag := ""
+		if s.Tag != nil {
+			tag = t.expr(s.Tag, env)
+		}
 		var deflt []ast.Stmt
 		type arm struct {
 			cond string
@@ -627,6 +655,10 @@ func (c *lbCtx) stmts(list []ast.Stmt, env map[string]string, ind string) string
 			}
 			var cs []string
 			for _, v := range cc.List {
+				if s.Tag == nil { // `switch { case cond: … }`: the first true condition
+					cs = append(cs, t.expr(v, env))
+					continue
+				}
 				if tv, ok := t.info.Types[v]; !ok || tv.Value == nil {
 					return t.fail(v, "non-constant case label")
 				}
@@ -1218,6 +1250,12 @@ func genLaneBodies(handlers []*lfHandler) {
 		for _, file := range imp.files[ar.path] {
 			for _, d := range file.Decls {
 				if fd, ok := d.(*ast.FuncDecl); ok && fd.Body != nil {
+					if fd.Recv != nil { // only the methods of the ALU itself (other types: Wavefront, …)
+						rt := strings.TrimPrefix(types.ExprString(fd.Recv.List[0].Type), "*")
+						if rt != "ALUImpl" && rt != "ALU" {
+							continue
+						}
+					}
 					if _, dup := a.funcs[fd.Name.Name]; dup {
 						fatalf("lanebody: %s: two functions called %s", ar.name, fd.Name.Name)
 					}
@@ -1230,11 +1268,15 @@ func genLaneBodies(handlers []*lfHandler) {
 	archs["gcn3"].emu, archs["cdna3"].emu = archs["gcn3"], archs["gcn3"]
 	var results []*lbResult
 	var memFacts []*lbMemFact
+	var memBodies []*lmResult
 	for _, h := range handlers {
 		res := archs[h.arch].translate(h)
 		results = append(results, res)
 		if lbMemoryFiles[filepath.Base(h.file)] {
 			memFacts = append(memFacts, archs[h.arch].memFact(h))
+			if mb := archs[h.arch].memTranslate(h); mb != nil {
+				memBodies = append(memBodies, mb)
+			}
 		}
 	}
 	var b strings.Builder
@@ -1315,6 +1357,7 @@ func genLaneBodies(handlers []*lfHandler) {
 	}
 	b.WriteString("]\n\n")
 	lbWriteMemFacts(&b, memFacts)
+	lbWriteMemHandlers(&b, memBodies)
 	b.WriteString("end Gen.Lane\n")
 	writeIfChanged("LaneBodies.lean", b.String())
 	var cs []string
